@@ -12,7 +12,7 @@ LEVEL = 'model_checking'
 STATES_FROM_COUNTERS = ('states', 'transitions')
 RULE = ('explicit-state search per resource type (Container cap 2/3 init 0/1 and cap 1 with fractional amounts, Store cap 1/2, PriorityStore, FilterStore with filters '
         '{any, ==1, ==2}, Resource cap 1/2, PriorityResource priorities {0,1,2}, PreemptiveResource with and without preempt): BFS over '
-        'all histories of one operation per time step to depth 4 (quick) / 6 (thorough) with deduplication on the complete reference '
+        'all histories of one operation per time step to depth 4 (quick) / 5 (thorough) with deduplication on the complete reference '
         'state; every transition is executed on the real resource (each operation issued by its own process) and the observed state '
         '(level / items / users / both queues / grants / preemptions) is compared with a sequential reference model; in addition, from '
         'every reachable state every ordered pair of operations is issued within ONE time step and the end-of-step invariants are '
@@ -451,7 +451,7 @@ def compare(kind, model, snap):
 
 
 # ---- search -------------------------------------------------------------------------------------------
-def search(tname, depth, pairs, first=None):
+def search(tname, depth, pairs, first=None, pair_depth=2):
     kind, params = TYPES[tname]
     seen = set()
     frontier = collections.deque()
@@ -503,7 +503,7 @@ def search(tname, depth, pairs, first=None):
                     frontier.append(steps)
                     if len(samples) < 2 and len(steps) >= 3:
                         samples.append({'type': tname, 'history': steps})
-        if pairs and not viol and len(hist) <= depth - 1 and (hist or first in (None, 0)):
+        if pairs and not viol and len(hist) <= min(depth - 1, pair_depth) and (hist or first in (None, 0)):
             # every ordered pair of operations within one time step, from this reachable state: invariants only
             issuing = [o for o in ops]
             for a, b in itertools.product(issuing, issuing):
@@ -530,7 +530,7 @@ def search(tname, depth, pairs, first=None):
 
 
 def BOUNDS(tier):
-    return {'quick': {'depth': 4, 'pairs_from_depth': '<= 2'}, 'thorough': {'depth': 6, 'pairs_from_depth': '<= 3'}}[tier]
+    return {'quick': {'depth': 4, 'pairs_from_depth': '<= 3'}, 'thorough': {'depth': 5, 'pairs_from_depth': '<= 3'}}[tier]
 
 
 def cases(tier):
@@ -543,8 +543,8 @@ def cases(tier):
 
 
 def explore_case(case, tier):
-    depth = 4 if tier == 'quick' else 6
-    r = search(case['type'], depth, True, case.get('first'))
+    depth = 4 if tier == 'quick' else 5
+    r = search(case['type'], depth, True, case.get('first'), pair_depth=3)
     return r
 
 
